@@ -238,7 +238,6 @@ func (dq *Deque[T]) waitPushAfter(ctx context.Context, it T, afterGetter func() 
 		if dq.closed {
 			return ErrQueueClosed
 		}
-		cond.Signal()
 
 		select {
 		case <-ctx.Done():
@@ -478,7 +477,6 @@ func (it *element[T]) wait(ctx context.Context, direction dqDirection) error {
 		if it.list.closed {
 			return ErrQueueClosed
 		}
-		cond.Signal()
 
 		select {
 		case <-ctx.Done():
